@@ -89,6 +89,54 @@ fn main() {
             let path = args[3].clone();
             dispatch!(args[2].as_str(), do_replay, &path)
         }
+        "fuzzcorpus" => {
+            // deterministic seed corpora for the libFuzzer targets: <dir>/<target>/*
+            use proptest::strategy::{Strategy, ValueTree};
+            let dir = args[2].clone();
+            let mut runner = proptest::test_runner::TestRunner::deterministic();
+            for t in ["fz_parse", "fz_json", "fz_envelope", "fz_codec"] {
+                let _ = std::fs::create_dir_all(format!("{}/{}", dir, t));
+            }
+            for k in 0..24 {
+                let sk = aquaverif::gen::sk_strategy(5, 30).new_tree(&mut runner).unwrap().current();
+                let profile = [aquaverif::gen::Profile::Frag, aquaverif::gen::Profile::Stream, aquaverif::gen::Profile::Any][k % 3];
+                let sc = aquaverif::gen::elaborate(&sk, &aquaverif::gen::GenCfg::new(profile));
+                std::fs::write(format!("{}/fz_parse/script{}", dir, k), &sc.text).unwrap();
+                let v = aquaverif::jsongen::value_strategy(3, 4).new_tree(&mut runner).unwrap().current();
+                std::fs::write(format!("{}/fz_json/value{}", dir, k), aquaverif::jsongen::noncanonical_text(&v, &[k as u16, 7, 3])).unwrap();
+            }
+            for (k, frag) in ["x.$.a", "x.$.[0]", "#can.$.[1].b", "%last_error%.$.message", ".length", ".$.[k]!"].iter().enumerate() {
+                std::fs::write(format!("{}/fz_parse/lens{}", dir, k), frag).unwrap();
+            }
+            let seed = aquaverif::fuzzapi::envelope_seed();
+            std::fs::write(format!("{}/fz_envelope/honest", dir), &seed).unwrap();
+            for c in 0..12u16 {
+                std::fs::write(format!("{}/fz_envelope/mangled{}", dir, c), aquaverif::props::faults::mangle(&seed, c * 37 + 5)).unwrap();
+            }
+            let mut res = std::collections::BTreeMap::new();
+            res.insert(1u32, (0i32, "\"ok\"".to_string()));
+            res.insert(7u32, (3i32, "failed".to_string()));
+            std::fs::write(format!("{}/fz_codec/results", dir), aquaverif::core::encode_results(&res)).unwrap();
+            std::fs::write(format!("{}/fz_codec/data", dir), &seed).unwrap();
+            0
+        }
+        "fuzzreplay" => {
+            // re-run one fuzz input through the release-build oracle: exit 1 when it fails
+            let data = std::fs::read(&args[3]).expect("read input");
+            let name = args[2].clone();
+            let r = std::panic::catch_unwind(|| aquaverif::fuzzapi::run_target(&name, &data));
+            match r {
+                Ok(true) => {
+                    println!("fuzzreplay {}: held", args[3]);
+                    0
+                }
+                Ok(false) => 3,
+                Err(_) => {
+                    println!("fuzzreplay {}: FAILS: {}", args[3], aquaverif::isolate::last_panic());
+                    1
+                }
+            }
+        }
         "parse" => {
             // triage: parse a script file, print the verdict and the independent scope analysis
             let text = std::fs::read_to_string(&args[2]).expect("read");
